@@ -75,6 +75,21 @@ def normalise_get_dispatch(stmts: list, var: str, scopes: list) -> list:
                 (isinstance(v, ast.Constant) and bool(v.value)) or isinstance(v, (ast.Tuple, ast.Attribute, ast.Name, ast.Lambda)) for v in tbl.values)
             used_later = any(isinstance(n, ast.Name) and n.id == x for later in stmts[i + 2:] for n in ast.walk(later)) \
                 or any(isinstance(n, ast.Name) and n.id == x for o in nxt.orelse for n in ast.walk(o))
+            negative = (isinstance(t, ast.UnaryOp) and isinstance(t.op, ast.Not) and isinstance(t.operand, ast.Name) and t.operand.id == x) or (
+                isinstance(t, ast.Compare) and len(t.ops) == 1 and isinstance(t.ops[0], ast.Is) and isinstance(t.left, ast.Name)
+                and t.left.id == x and isinstance(t.comparators[0], ast.Constant) and t.comparators[0].value is None)
+            if negative and truthy_vals and not nxt.orelse and nxt.body and isinstance(nxt.body[-1], (ast.Return, ast.Continue, ast.Break, ast.Raise)):
+                # `x = T.get(var); if x is None: <leave>; <rest>`  ==  `if var in T: x = T[var]; <rest>  else: <leave>`
+                look = ast.Assign(targets=[ast.Name(id=x, ctx=ast.Store())],
+                                  value=ast.Subscript(value=copy.deepcopy(recv), slice=ast.Name(id=var, ctx=ast.Load()), ctx=ast.Load()))
+                ast.copy_location(look, st)
+                rest = normalise_get_dispatch(list(stmts[i + 2:]), var, scopes)
+                new = ast.If(test=ast.Compare(left=ast.Name(id=var, ctx=ast.Load()), ops=[ast.In()], comparators=[copy.deepcopy(recv)]),
+                             body=[look] + rest, orelse=list(nxt.body))
+                ast.copy_location(new, nxt)
+                ast.fix_missing_locations(new)
+                out.append(new)
+                return out
             if positive and truthy_vals and not used_later:
                 look = ast.Assign(targets=[ast.Name(id=x, ctx=ast.Store())],
                                   value=ast.Subscript(value=copy.deepcopy(recv), slice=ast.Name(id=var, ctx=ast.Load()), ctx=ast.Load()))
